@@ -91,6 +91,11 @@ pub struct GatherPlan {
     /// leave the registry as it was
     #[serde(default)]
     pub bundle_fault: bool,
+    /// two more simulated threads register, at the same time and on a registry of their own, a counter
+    /// and a two-descriptor collector that repeats the counter's descriptor as a gauge: at most one of
+    /// the two may be admitted, and whatever gather() shows afterwards must be of one type
+    #[serde(default)]
+    pub race_register: bool,
 }
 
 const BOUNDS: [f64; 2] = [4.0, 64.0];
@@ -213,7 +218,7 @@ pub fn gen_plan(seed: u64, mixed_kinds: bool) -> GatherPlan {
             prelude.push(t);
         }
     }
-    GatherPlan { env, prefix, common, metrics, orders, hash_seeds, concurrent_gather: focus || r.chance(30), prelude, custom: vec![], poison: r.chance(15), custom_type_unset: false, stable, custom_extra_values: false, bundle_fault: r.chance(15) }
+    GatherPlan { env, prefix, common, metrics, orders, hash_seeds, concurrent_gather: focus || r.chance(30), prelude, custom: vec![], poison: r.chance(15), custom_type_unset: false, stable, custom_extra_values: false, bundle_fault: r.chance(15), race_register: r.chance(15) }
 }
 
 fn hist_model(v: u32) -> compat::PHist {
@@ -474,6 +479,8 @@ pub struct Replica {
     /// concurrent run: its original vector children were removed while new ones were created)
     pub final_gather: Option<Vec<PFamily>>,
     pub errors: Vec<String>,
+    /// replica 0 of a plan with `race_register`: (counter admitted, bundle admitted, gather() of the race registry at quiescence)
+    pub race: Option<(bool, bool, Vec<PFamily>)>,
 }
 
 /// Materialise every replica on its own simulated thread (own hash seed, own registration order).
@@ -483,10 +490,55 @@ pub fn run_replicas(plan: &GatherPlan, mode: Mode) -> (crate::engine::RunResult,
     let keep = Keep::new();
     let reg0: Arc<Mutex<Option<Registry>>> = Arc::new(Mutex::new(None));
     let final0: Arc<Mutex<Option<Vec<PFamily>>>> = Arc::new(Mutex::new(None));
-    if plan.concurrent_gather {
+    let race_out: Arc<Mutex<Option<(bool, bool, Vec<PFamily>)>>> = Arc::new(Mutex::new(None));
+    #[allow(clippy::type_complexity)]
+    let mut race_parts: Option<(Registry, Arc<Mutex<(Option<bool>, Option<bool>)>>)> = None;
+    if plan.race_register {
+        let race_reg = Registry::new();
+        let res: Arc<Mutex<(Option<bool>, Option<bool>)>> = Arc::new(Mutex::new((None, None)));
+        let o = Opts::new("zz_race", "racing registrations").const_label("k", "v");
+        let c = IntCounter::with_opts(o.clone()).unwrap();
+        c.inc_by(5);
+        let b = Bundle { g: IntGauge::with_opts(o).ok(), c: None, aux: IntCounter::new("zz_race_aux", "aux").unwrap() };
+        if let Some(g) = &b.g {
+            g.set(9);
+        }
+        {
+            let (reg, res) = (race_reg.clone(), res.clone());
+            sim.spawn("race_a", false, move |ctx| {
+                ctx.invoke(op_id(30, 0));
+                let ok = reg.register(Box::new(c)).is_ok();
+                ctx.ret(op_id(30, 0));
+                res.lock().unwrap().0 = Some(ok);
+            });
+        }
+        {
+            let (reg, res) = (race_reg.clone(), res.clone());
+            sim.spawn("race_b", false, move |ctx| {
+                ctx.invoke(op_id(31, 0));
+                let ok = reg.register(Box::new(b)).is_ok();
+                ctx.ret(op_id(31, 0));
+                res.lock().unwrap().1 = Some(ok);
+            });
+        }
+        race_parts = Some((race_reg, res));
+    }
+    if plan.concurrent_gather || plan.race_register {
         let reg0 = reg0.clone();
         let final0 = final0.clone();
+        let race_out = race_out.clone();
+        let keep2 = keep.clone();
+        let want_final0 = plan.concurrent_gather;
+        // (one final thread only: two threads waiting for quiescence would wait for each other)
         spawn_final(&sim, move |_| {
+            if let Some((race_reg, res)) = race_parts {
+                let r = *res.lock().unwrap();
+                *race_out.lock().unwrap() = Some((r.0.unwrap_or(false), r.1.unwrap_or(false), compat::families_of(&race_reg.gather())));
+                keep2.push(race_reg);
+            }
+            if !want_final0 {
+                return;
+            }
             let r = reg0.lock().unwrap().clone();
             if let Some(r) = r {
                 *final0.lock().unwrap() = Some(compat::families_of(&r.gather()));
@@ -677,7 +729,7 @@ pub fn run_replicas(plan: &GatherPlan, mode: Mode) -> (crate::engine::RunResult,
                 None
             };
             ctx.ret(op_id(k, 0));
-            outp.lock().unwrap()[k] = Some(Replica { fams, typed, text, concurrent, final_gather: None, errors });
+            outp.lock().unwrap()[k] = Some(Replica { fams, typed, text, concurrent, final_gather: None, errors, race: None });
             keep.push(built);
             keep.push(reg);
         });
@@ -687,6 +739,7 @@ pub fn run_replicas(plan: &GatherPlan, mode: Mode) -> (crate::engine::RunResult,
     let mut o = outp.lock().unwrap().clone();
     if let Some(Some(r0)) = o.get_mut(0) {
         r0.final_gather = final0.lock().unwrap().clone();
+        r0.race = race_out.lock().unwrap().clone();
     }
     (res, o)
 }
@@ -1025,6 +1078,17 @@ fn execute_c14(plan: &GatherPlan, mode: Mode) -> RunOut {
                 }
             }
         }
+    }
+    if let Some((a_ok, b_ok, fams)) = reps.first().and_then(|r| r.race.clone()) {
+        for f in &fams {
+            for m in &f.metrics {
+                let payloads: Vec<PType> = [(m.counter.is_some(), PType::Counter), (m.gauge.is_some(), PType::Gauge)].iter().filter(|x| x.0).map(|x| x.1).collect();
+                if compat::HAS_PRESENCE && payloads != vec![f.typ] {
+                    out.violations.push(Violation::new("C14/mixed-type", "C14/mixed-type:after-racing-registrations", format!("two threads registered a counter and a collector repeating its descriptor as a gauge at the same time (admitted: {} / {}); family {:?} is declared {:?} but the sample {:?} carries {:?}", a_ok, b_ok, f.name, f.typ, m.labels, payloads)));
+                }
+            }
+        }
+        out.probes.push(("racing_registrations", 1));
     }
     if let Some(first) = reps.first() {
         for (k, rep) in reps.iter().enumerate().skip(1) {
